@@ -1,0 +1,9 @@
+//! C30 — `AddressLookupServices::publish` is crate-private; this is a public wrapper.
+//! The pause points `lookup.add.after_read`, `lookup.publish.after_services` and
+//! `lookup.publish.before_store` live in `address_lookup.rs`.
+use crate::address_lookup::{AddressLookupServices, EndpointData};
+
+/// Calls the crate-private `AddressLookupServices::publish`.
+pub fn publish(services: &AddressLookupServices, data: &EndpointData) {
+    services.publish(data)
+}
